@@ -17,7 +17,7 @@ Inductive step :=
    disconnected(insufficient state), recovered flag, ids in reply.publications *)
 | StStreamRec (hist : list pub) (top cmd : N) (epoch_ok : bool) (live : list pub)
               (o_disc o_recovered : bool) (o_ids : list N)
-| StCacheRec (hist_rev : list pub) (top cmd : N) (epoch_eq : bool) (live : list pub)
+| StCacheRec (hist_rev : list pub) (top cmd : N) (epoch_eq req_delta : bool) (live : list pub)
              (o_disc o_recovered : bool) (o_ids : list N)
 | StMapState (rev : option N) (pubs : list pub) (o_ids : list N)
 | StMapStream (pubs : list pub) (o_ids : list N)
@@ -49,8 +49,8 @@ Definition corr_step (vs : verd * step) : bool :=
       | SDisconnect => odisc
       | SReply r pubs => negb odisc && Bool.eqb r orec && eqb_listN (ids pubs) oids
       end
-  | StCacheRec hist top cmd eeq live odisc orec oids =>
-      match cache_recovery V hist top cmd eeq live with
+  | StCacheRec hist top cmd eeq rd live odisc orec oids =>
+      match cache_recovery V hist top cmd eeq rd live with
       | SDisconnect => odisc
       | SReply r pubs => negb odisc && Bool.eqb r orec && eqb_listN (ids pubs) oids
       end
@@ -77,7 +77,7 @@ Definition oracle_step (vs : verd * step) : bool :=
   match s with
   | StLive _ delta _ p od _ => delta || negb od || visible V (p_id p)
   | StStreamRec _ _ _ _ _ _ _ oids => all_visible_b V oids
-  | StCacheRec _ _ _ _ _ _ _ oids => all_visible_b V oids
+  | StCacheRec _ _ _ _ _ _ _ _ oids => all_visible_b V oids
   | StMapState _ _ oids => all_visible_b V oids
   | StMapStream _ oids => all_visible_b V oids
   | StMapLive _ _ _ _ oids => all_visible_b V oids
